@@ -138,6 +138,7 @@ def run(ctx):
     minmax(ctx)
     rebind(ctx)
     rebind_order(ctx)
+    inference_programs(ctx)
     from .. import macrolint, facts as _facts
     macrolint.hygiene_rule(ctx, ["opt_unwrap", "opt_unwrap_or", "opt_unwrap_or_else", "opt_ok_or", "opt_ok_or_else", "opt_map", "opt_and_then",
                                  "opt_or_else", "opt_flatten", "opt_filter", "res_unwrap_or", "res_unwrap_or_else", "res_unwrap_err_or_else",
@@ -148,6 +149,30 @@ def run(ctx):
     ctx.floor("TAB-MINMAX", 12)
     ctx.floor("ACC-REBIND", 12)
     ctx.floor("LINT", 8)
+
+
+INFER_PROGS = [
+    ("min!/typed,untyped", "pub const M: u32 = konst::min!(3u32, 5);"),
+    ("max!/typed,untyped", "pub const M: i64 = konst::max!(3i64, 5);"),
+    ("max!/str", "pub const M: &str = konst::max!(\"world\", \"hello\");"),
+    ("min_by!/untyped", "pub const M: u32 = konst::min_by!(3u32, 10, |&l, &r| konst::const_cmp!(l, r / 4));"),
+    ("max_by_key!/untyped", "pub const M: u32 = konst::max_by_key!(3u32, 10, |x| *x % 4);"),
+    ("unwrap_or!/untyped", "pub const M: u8 = konst::option::unwrap_or!(Some(3u8), 5);"),
+    ("result::unwrap_or!/untyped", "pub const M: u8 = konst::result::unwrap_or!(Ok::<u8, ()>(3), 5);"),
+]
+
+
+def inference_programs(ctx):
+    """(only the documented direction: the right operand's type may be inferred from the left one - `min!(3, 5u32)` is rejected
+    by the pinned tree as well and is not part of the property)
+    ACC-INFER: the documented call shapes in which one operand's type is inferred from the other (`min!(3u32, 5)`) must keep
+    compiling - the macros route their operands through type-inference helpers, and a slip there rejects valid programs"""
+    res = facts.compile_many([(n, "#![allow(unused)]\n" + src + "\n") for n, src in INFER_PROGS], ctx.th)
+    for (n, src), r in zip(INFER_PROGS, res):
+        if not r["ok"]:
+            ctx.violation("ACC-INFER", n, "a valid program is rejected: `%s`: %s" % (src, "; ".join(e["message"][:120] for e in r["errors"][:2])), detail={"program": src})
+        ctx.instance("ACC-INFER", n, sample={"program": src, "accepted": r["ok"]})
+    ctx.floor("ACC-INFER", len(INFER_PROGS))
 
 
 def rebind_order(ctx):
